@@ -280,12 +280,12 @@ func TestC08_Gates(t *testing.T) {
 			// a registered extension profile whose Validate() adds a rule of its
 			// own: every gate must consult THAT, not just the standard claims
 			m = GenValid(t, P2, true)
-			ts := rapid.SampledFrom([]int64{-1, -1700000000, 0, 5, 1700000000}).Draw(t, "ts")
+			ts := rapid.SampledFrom([]int64{-1, -1700000000, extTSNotInProfile, extTSOptionalish, 0, 5, 1700000000}).Draw(t, "ts")
 			var err error
 			if c, err = buildExt(m, &ts); err != nil {
 				t.Fatalf("VERIF-INFRA: %v", err)
 			}
-			extBroken = ts < 0
+			extBroken = extRuleBroken(&ts)
 			isExt = true
 		}
 		alg := rapid.SampledFrom(fastAlgs).Draw(t, "alg")
